@@ -121,6 +121,7 @@ FORM_RETURNS = {
 }
 
 LOSSY = ("svd:eig", "qr:cholesky")
+LOSSY64 = 5e-6  # ~300 sqrt(eps): the documented "some loss of precision" of Gram-matrix based methods (observed <= 1.5e-8)
 ITERATIVE = ("svds", "isvd", "rsvd", "eigsh", "svd:rand")
 HERMITIAN_ONLY = ("eigh", "eigsh")
 SVD_TYPE = ("svd", "svd:eig")  # full-spectrum methods for which rule / optimality / error are promised exactly
@@ -188,7 +189,14 @@ def make_input(seed, kind, m, n, dtype, rank=None):
         v, _ = np.linalg.qr(g(n, k))
         s = 1.7 ** (-np.arange(k))
         x = (u * s) @ v.conj().T
-    elif kind in ("herm_indef", "psd_wc", "herm_geo", "psd_geo"):
+    elif kind == "lowrank":
+        r = max(1, min(k, rank or 1))
+        u, _ = np.linalg.qr(g(m, k))
+        v, _ = np.linalg.qr(g(n, k))
+        s = np.zeros(k)
+        s[:r] = np.linspace(3.0, 2.0, r)
+        x = (u * s) @ v.conj().T
+    elif kind in ("herm_indef", "psd_wc", "herm_geo", "psd_geo", "psd_lowrank"):
         u, _ = np.linalg.qr(g(m, m))
         if kind == "psd_wc":
             w = np.sort(rng.uniform(0.5, 2.0, size=m))[::-1]
@@ -196,6 +204,10 @@ def make_input(seed, kind, m, n, dtype, rank=None):
             w = np.linspace(2.0, 0.6, m) * np.where(np.arange(m) % 2 == 0, 1.0, -1.0)
         elif kind == "psd_geo":
             w = 1.7 ** (-np.arange(m))
+        elif kind == "psd_lowrank":
+            r = max(1, min(m, rank or 1))
+            w = np.zeros(m)
+            w[:r] = np.linspace(3.0, 2.0, r)
         else:
             w = 1.7 ** (-np.arange(m)) * np.where(np.arange(m) % 2 == 0, 1.0, -1.0)
         x = (u * w) @ u.conj().T
@@ -205,7 +217,7 @@ def make_input(seed, kind, m, n, dtype, rank=None):
     if not cplx:
         x = np.real(x)
     x = np.array(x, dtype=np.dtype(dtype), order="C")
-    if kind in ("herm_indef", "psd_wc", "herm_geo", "psd_geo", "hermitian", "psd"):
+    if kind in ("herm_indef", "psd_wc", "herm_geo", "psd_geo", "psd_lowrank", "hermitian", "psd"):
         # exactly Hermitian after the cast as well
         x = ((x + x.conj().T) / 2).astype(np.dtype(dtype))
     return x
@@ -274,24 +286,33 @@ def renorm_factor(s, k, p):
 
 
 # ---------------------------------------------------------------------------
-# one cell: call array_split and check everything the contract says
+# calling quimb
 # ---------------------------------------------------------------------------
 
 class CellReject(Exception):
-    """array_split refused the cell with a documented exception type."""
+    """array_split refused the request with a documented exception type."""
 
     def __init__(self, why):
         super().__init__(why)
         self.why = why
 
 
+def fresh_parser():
+    """Forget the option parser's memo tables (so a cell never depends on the cells run before it)."""
+    D = dmod()
+    for name in ("parse_split_opts", "parse_method_absorb", "parse_split_left_right_isom"):
+        cc = getattr(getattr(D, name, None), "cache_clear", None)
+        if cc:
+            cc()
+
+
 def call_quimb(fn, info):
-    """Call fn(); ValueError / NotImplementedError -> CellReject; any other exception whose traceback passes
+    """fn(); ValueError / NotImplementedError -> CellReject; any other exception whose traceback passes
     through quimb -> crash Violation carrying the cell description."""
     try:
         return fn()
     except (ValueError, NotImplementedError) as e:
-        raise CellReject(f"{type(e).__name__}") from e
+        raise CellReject(type(e).__name__) from e
     except (Violation, Reject, core.HarnessError):
         raise
     except Exception as e:
@@ -299,14 +320,14 @@ def call_quimb(fn, info):
         if not frames:
             raise
         fr = frames[-1]
-        raise Violation("crash", exc=type(e).__name__, where=f"{fr[0]}:{fr[1]}", msg=str(e)[:120].replace("\n", " "), **info) from e
+        raise Violation("crash", exc=type(e).__name__, where=f"{fr[0]}:{fr[1]}", msg=str(e)[:100].replace("\n", " "), **info) from e
 
 
 def tol_class(driver, dtype):
     lossy = driver in LOSSY or driver in ITERATIVE
     if is_single(dtype):
         return INV32 if lossy else EXACT32
-    return INV64 if lossy else EXACT64
+    return LOSSY64 if lossy else EXACT64
 
 
 def band_for(driver, dtype):
@@ -315,30 +336,27 @@ def band_for(driver, dtype):
     return 1e-4 if is_single(dtype) else 1e-9
 
 
-def fro(x):
-    return core.fro(x)
-
-
 def herm(x):
     return np.conj(np.swapaxes(x, -2, -1))
 
 
-def check_cell(x, method, form, *, max_bond=None, cutoff=0.0, mode="rsum2", renorm=None, want_info=False,
-               extra=None, signed_values=False, info=None):
-    """Run one array_split cell on the 2-D array x and check it.  Returns dict(k, removed, err, cls).
-    `info`: classification dict merged into every Violation raised here."""
-    D = dmod()
+def plan(method, form, max_bond, cutoff):
+    """(driver, effective form, caps, form_ignored) from the documented resolution rules."""
     reg = registry()
-    info = dict(info or {})
-    m, n = x.shape
-    dt = str(x.dtype)
-    d = min(m, n)
-    mb = max_bond
-    truncation = ((mb or -1) > 0) or ((cutoff if cutoff is not None else -1.0) > 0.0)
+    truncation = ((max_bond or -1) > 0) or ((cutoff if cutoff is not None else -1.0) > 0.0)
     driver, rform = resolve_method(method, form, truncation)
     caps = reg["caps"][driver]
-    eff_form = rform if rform != "auto" else default_form(driver)
-    kw = dict(method=method, absorb=form, max_bond=mb, cutoff=cutoff, cutoff_mode=mode, renorm=renorm)
+    eff = rform if rform != "auto" else default_form(driver)
+    ignored = False
+    if not caps["absorb"] and eff != default_form(driver):
+        ignored = True
+    return driver, eff, caps, ignored
+
+
+def split_call(x, method, form, *, max_bond=None, cutoff=0.0, mode="rsum2", renorm=None, want_info=False, extra=None, info=None):
+    """array_split on (a copy of) x.  Returns (L, s, R, info_dict_or_None)."""
+    D = dmod()
+    kw = dict(method=method, absorb=form, max_bond=max_bond, cutoff=cutoff, cutoff_mode=mode, renorm=renorm)
     if extra:
         kw.update(extra)
     idict = None
@@ -346,26 +364,40 @@ def check_cell(x, method, form, *, max_bond=None, cutoff=0.0, mode="rsum2", reno
         idict = {}
         kw["info"] = idict
     xin = x.copy()
-    out = call_quimb(lambda: D.array_split(xin, **kw), info)
+    out = call_quimb(lambda: D.array_split(xin, **kw), info or {})
     if not (isinstance(out, tuple) and len(out) == 3):
-        raise Violation("return-shape", got=repr(type(out)), **info)
-    L, s, R = out
-    if not np.array_equal(xin, x):
-        raise Violation("input-mutated", **info)
-    # ---- which parts are returned -------------------------------------------------
-    if caps["absorb"]:
-        wl, ws, wr = FORM_RETURNS[eff_form]
-    else:
-        # driver takes no form: it returns its documented (left, None, right)
-        wl, ws, wr = True, False, True
-        if form not in ("auto", default_form(driver)):
-            # the request names a form the driver cannot produce and that was not refused
-            info = dict(info, form_ignored=True)
-            eff_form = default_form(driver)
+        raise Violation("return-shape", got=repr(type(out)), **(info or {}))
+    if not np.array_equal(xin, x, equal_nan=True):
+        raise Violation("input-mutated", **(info or {}))
+    return out[0], out[1], out[2], idict
+
+
+# ---------------------------------------------------------------------------
+# the oracle for one returned (left, s, right) of a 2-D input
+# ---------------------------------------------------------------------------
+
+def verify(x, L, s, R, idict, method, form, *, max_bond=None, cutoff=0.0, mode="rsum2", renorm=None, info=None,
+           count_rule=True, report=None):
+    """Check everything the contract says about (L, s, R) = array_split(x, ...).  Returns dict(k, removed, err, ...).
+    count_rule=False: the kept count is taken as given (batched truncation keeps the maximum over the batch)."""
+    D = dmod()
+    info = dict(info or {})
+    m, n = x.shape
+    dt = str(x.dtype)
+    d = min(m, n)
+    mb = max_bond
+    driver, eff_form, caps, ignored = plan(method, form, mb, cutoff)
+    if ignored:
+        info["form_ignored"] = True
+    # ---- which parts are returned (documented per form) -------------------------------
+    wl, ws, wr = FORM_RETURNS[eff_form]
     got = (L is not None, s is not None, R is not None)
     if got != (wl, ws, wr):
         raise Violation("parts-returned", got=list(got), want=[wl, ws, wr], **info)
-    # ---- shapes, dtypes, bond ---------------------------------------------------------
+    if ignored:
+        # the driver produced its own default form; check that one
+        eff_form = default_form(driver)
+    # ---- shapes, one common bond, finite ------------------------------------------------
     ks = set()
     if L is not None:
         L = np.asarray(L)
@@ -385,37 +417,32 @@ def check_cell(x, method, form, *, max_bond=None, cutoff=0.0, mode="rsum2", reno
     if len(ks) != 1:
         raise Violation("bond-mismatch", got=sorted(ks), **info)
     k = ks.pop()
-    for nm, arr in (("left", L), ("right", R)):
-        if arr is not None and str(arr.dtype) != dt:
-            raise Violation("dtype", which=nm, got=str(arr.dtype), want=dt, **info)
-    if s is not None and str(s.dtype) not in (real_dtype(dt), dt):
-        raise Violation("dtype", which="s", got=str(s.dtype), want=real_dtype(dt), **info)
     for nm, arr in (("left", L), ("right", R), ("s", s)):
         if arr is not None and not np.all(np.isfinite(arr)):
             raise Violation("non-finite", which=nm, **info)
+    promoted = any(a is not None and is_single(dt) and not is_single(a.dtype) for a in (L, R, s))
     polar = driver.startswith("polar")
-    if k < 1 and d >= 1:
+    if k < 1:
         raise Violation("kept-zero", **info)
     if not polar and k > d:
         raise Violation("bond-too-large", k=k, d=d, **info)
     if mb is not None and mb > 0 and caps["max_bond"] and k > mb:
         raise Violation("bond-above-cap", k=k, max_bond=mb, **info)
-    # ---- reference spectrum and expected kept count --------------------------------------
+    # ---- reference spectrum and the documented kept count -----------------------------------
     x128 = x.astype(np.complex128)
     U0, s0, V0 = np.linalg.svd(x128, full_matrices=False)
-    nx = fro(x128)
+    smax = max(float(s0[0]), 1e-300)
+    nx = max(core.fro(x128), 1e-300)
     tol = tol_class(driver, dt)
     band = band_for(driver, dt)
-    cls = []
     exact_rule = driver in SVD_TYPE or driver == "eigh"
     powers = renorm_power(renorm, mode) if caps["renorm"] else (0,)
     p_on = any(p > 0 for p in powers)
-    if polar or not (caps["max_bond"] or caps["cutoff"]):
-        # no truncation support: options are documented as ignored
-        removed = 0
+    can_truncate = (caps["max_bond"] or caps["cutoff"]) and not polar
+    if not can_truncate:
         if not polar and k != d:
             raise Violation("bond-size", k=k, want=d, **info)
-        kref = d
+        removed = 0
     else:
         cm = mode if caps["cutoff_mode"] else "rsum2"
         co = cutoff if caps["cutoff"] else 0.0
@@ -424,118 +451,517 @@ def check_cell(x, method, form, *, max_bond=None, cutoff=0.0, mode="rsum2", reno
         else:
             kmin, kmax = rule_count(s0, co, cm, mb if caps["max_bond"] else None, band)
             if p_on and not (co and co > 0):
-                # renormalisation with no cutoff: dropping exact zeros is harmless (no value is lost)
-                kmin = min(kmin, max(1, int(np.sum(s0 > band * max(s0[0], 1e-300)))))
-        if exact_rule or driver in ITERATIVE:
-            if not (kmin <= k <= kmax):
-                raise Violation("kept-count", k=k, kmin=kmin, kmax=kmax, **info)
+                # renormalising with no cutoff: dropping (numerically) zero values loses nothing
+                kz = max(1, int(np.sum(s0 > band * smax)))
+                kmin = min(kmin, kz if not (mb and mb > 0) else min(kz, mb))
+        if count_rule and (exact_rule or driver in ITERATIVE) and not (kmin <= k <= kmax):
+            raise Violation("kept-count", k=k, kmin=kmin, kmax=kmax, **info)
         removed = d - k
-        kref = k
-    # ---- expected kept values (renorm) and the target x_k -----------------------------------
-    xk_opts = []
-    for p in powers:
-        f = renorm_factor(s0, kref, p) if (kref < d) else 1.0
-        sk = s0[:kref] * f
-        xk_opts.append((p, sk, (U0[:, :kref] * sk) @ V0[:kref, :]))
-    if removed == 0:
-        xk_opts = [(powers[0], s0[:kref], x128)]
-    # a truncation is only well defined when the cut does not fall inside a degenerate cluster
-    gap_ok = removed == 0 or kref >= d or (s0[kref - 1] - s0[kref]) > 1e3 * band * max(s0[0], 1e-300)
     errs = [0.0]
+    Lc = L.astype(np.complex128) if L is not None else None
+    Rc = R.astype(np.complex128) if R is not None else None
+    sc = s.astype(np.complex128) if s is not None else None
+    kk = min(k, d)
+    # candidates for the target x_k: one per documented renorm power
+    if removed == 0:
+        cands = [(0, s0[:kk], x128)]
+    else:
+        cands = []
+        for p in powers:
+            sk = s0[:kk] * renorm_factor(s0, kk, p)
+            cands.append((p, sk, (U0[:, :kk] * sk) @ V0[:kk, :]))
+    # the best rank-k approximation is unique only if the cut does not fall inside a cluster of equal values
+    gap_ok = removed == 0 or (s0[kk - 1] - s0[kk]) > 1e3 * band * smax
+    value_promised = removed == 0 or exact_rule or driver in ITERATIVE
 
-    def close(a, b, floor, reason, t=tol, **kw2):
-        e = rel_err(a, b, floor=floor)
-        errs.append(e if np.isfinite(e) else 1e300)
-        if not e <= t:
-            raise Violation(reason, err=float(e), tol=t, **kw2, **info)
-        return e
-
-    def best(fn):
-        """fn(sk, xk) -> (got, want, floor); pass if any documented renorm power matches."""
+    def require(fn, reason, **kw2):
         last = None
-        for p, sk, xk in xk_opts:
+        for p, sk, xk in cands:
             a, b, fl = fn(sk, xk)
             e = rel_err(a, b, floor=fl)
             if e <= tol:
                 errs.append(e)
                 return p
             last = e
-        return ("fail", last)
+        raise Violation(reason, err=float(last) if np.isfinite(last) else 1e300, tol=tol, **kw2, **info)
 
-    def require(fn, reason, **kw2):
-        r = best(fn)
-        if isinstance(r, tuple):
-            raise Violation(reason, err=float(r[1]) if np.isfinite(r[1]) else 1e300, tol=tol, **kw2, **info)
-        return r
-
-    Lc = L.astype(np.complex128) if L is not None else None
-    Rc = R.astype(np.complex128) if R is not None else None
-    sc = s.astype(np.complex128) if s is not None else None
-    lossless_check = gap_ok and (driver != "lu" or removed == 0)
-    value_driver = exact_rule or driver in ITERATIVE or removed == 0
-    if driver in HERMITIAN_ONLY and sc is not None and not signed_values:
-        pass
-    if lossless_check and value_driver:
-        if polar:
-            close(Lc @ Rc, x128, nx, "reconstruction", form=eff_form)
-        elif eff_form in (None, "both", "left", "right"):
-            if eff_form is None:
-                prod = (Lc * sc[None, :]) @ Rc
-                # separate values: non-negative, descending (eigh: by modulus)
-                sv = np.abs(s.astype(np.float64)) if driver in HERMITIAN_ONLY else s.astype(np.float64)
-                if driver not in HERMITIAN_ONLY and np.any(s.astype(np.float64) < -tol * max(s0[0], 1e-300)):
-                    raise Violation("negative-singular-value", **info)
-                if np.any(np.diff(sv) > tol * max(s0[0], 1e-300) * 10):
-                    raise Violation("values-not-descending", **info)
-                require(lambda sk, xk: (sv, sk, max(s0[0], 1e-300)), "values", form="full")
-            else:
-                prod = Lc @ Rc
-            require(lambda sk, xk: (prod, xk, nx), "reconstruction" if removed == 0 else "not-best-rank-k", form=str(eff_form))
+    two = eff_form in (None, "both", "left", "right") or polar
+    prod = None
+    if two:
+        prod = (Lc * sc[None, :]) @ Rc if sc is not None else Lc @ Rc
+    if value_promised and gap_ok:
+        if two:
+            require(lambda sk, xk: (prod, xk, nx), "reconstruction" if removed == 0 else "not-best-rank-k", eff=str(eff_form))
         elif eff_form == "lorthog":
-            require(lambda sk, xk: (Lc @ (herm(Lc) @ xk), xk, nx), "single-factor-range", form=eff_form)
+            require(lambda sk, xk: (Lc @ (herm(Lc) @ xk), xk, nx), "single-factor-range", eff=eff_form)
         elif eff_form == "rorthog":
-            require(lambda sk, xk: ((xk @ herm(Rc)) @ Rc, xk, nx), "single-factor-range", form=eff_form)
+            require(lambda sk, xk: ((xk @ herm(Rc)) @ Rc, xk, nx), "single-factor-range", eff=eff_form)
         elif eff_form == "lfactor":
-            require(lambda sk, xk: (Lc @ herm(Lc), xk @ herm(xk), nx * nx), "single-factor-gram", form=eff_form)
+            require(lambda sk, xk: (Lc @ herm(Lc), xk @ herm(xk), nx * nx), "single-factor-gram", eff=eff_form)
         elif eff_form == "rfactor":
-            require(lambda sk, xk: (herm(Rc) @ Rc, herm(xk) @ xk, nx * nx), "single-factor-gram", form=eff_form)
+            require(lambda sk, xk: (herm(Rc) @ Rc, herm(xk) @ xk, nx * nx), "single-factor-gram", eff=eff_form)
         elif eff_form == "lsqrt":
-            def f(sk, xk):
-                g = Lc @ herm(Lc)
-                return g @ g, xk @ herm(xk), nx * nx
-            require(f, "single-factor-gram", form=eff_form)
+            g = Lc @ herm(Lc)
+            require(lambda sk, xk: (g @ g, xk @ herm(xk), nx * nx), "single-factor-gram", eff=eff_form)
         elif eff_form == "rsqrt":
-            def f(sk, xk):
-                g = herm(Rc) @ Rc
-                return g @ g, herm(xk) @ xk, nx * nx
-            require(f, "single-factor-gram", form=eff_form)
-        elif eff_form == "s":
-            sv = np.abs(s.astype(np.float64)) if driver in HERMITIAN_ONLY else s.astype(np.float64)
-            require(lambda sk, xk: (np.sort(sv)[::-1], sk, max(s0[0], 1e-300)), "values", form="s")
-    # ---- isometry of the factors the library reports isometric -------------------------------------
+            g = herm(Rc) @ Rc
+            require(lambda sk, xk: (g @ g, herm(xk) @ xk, nx * nx), "single-factor-gram", eff=eff_form)
+        if sc is not None and not polar:
+            # returned values (any order; eigen-decompositions return signed values): the kept singular values
+            sv = np.sort(np.abs(s.astype(np.float64)))[::-1]
+            if driver not in HERMITIAN_ONLY and np.any(s.astype(np.float64) < -tol * smax):
+                raise Violation("negative-singular-value", **info)
+            require(lambda sk, xk: (sv, sk, smax), "values", eff=str(eff_form))
+    elif value_promised and two and not p_on:
+        # degenerate cut: any best approximation has the Eckart-Young distance
+        disc = float(np.sqrt(np.sum(s0[kk:] ** 2)))
+        e = abs(core.fro(prod - x128) - disc) / nx
+        errs.append(e)
+        if not e <= tol:
+            raise Violation("not-best-rank-k", err=e, tol=tol, eff=str(eff_form), degenerate=True, **info)
+    # ---- isometry of the factors the library reports isometric ----------------------------------
     li, ri = D.parse_split_left_right_isom(method, form)
-    iso_tol = tol * 10
-    if li and L is not None:
+    iso_tol = 10 * tol * max(1.0, math.sqrt(k))
+    if li and Lc is not None:
         e = float(np.linalg.norm(herm(Lc) @ Lc - np.eye(Lc.shape[1])))
         errs.append(e / 10)
-        if not e <= iso_tol * max(1.0, math.sqrt(k)):
-            raise Violation("isometry-flag", side="left", defect=round(e, 6), **info)
-    if ri and R is not None:
+        if not e <= iso_tol:
+            raise Violation("isometry-flag", side="left", defect=round(e, 4), **info)
+    if ri and Rc is not None:
         e = float(np.linalg.norm(Rc @ herm(Rc) - np.eye(Rc.shape[0])))
         errs.append(e / 10)
-        if not e <= iso_tol * max(1.0, math.sqrt(k)):
-            raise Violation("isometry-flag", side="right", defect=round(e, 6), **info)
-    # ---- reported truncation error ---------------------------------------------------------------------
-    if want_info:
-        if "error" not in idict or idict["error"] is None:
+        if not e <= iso_tol:
+            raise Violation("isometry-flag", side="right", defect=round(e, 4), **info)
+    # ---- reported truncation error -------------------------------------------------------------------
+    if idict is not None:
+        rep_ = report if report is not None else idict.get("error")
+        if rep_ is None:
             raise Violation("info-error-missing", **info)
-        rep = float(np.asarray(idict["error"]))
-        disc = float(np.sqrt(np.sum(s0[k:] ** 2))) if k < d else 0.0
-        close(np.array(rep), np.array(disc), nx, "info-error-vs-discarded")
-        if not p_on and eff_form in (None, "both", "left", "right") and not polar:
-            prod = (Lc * sc[None, :]) @ Rc if eff_form is None else Lc @ Rc
-            close(np.array(rep), np.array(fro(prod - x128)), nx, "info-error-vs-distance")
-    if removed:
-        cls.append("truncated")
-    return {"k": int(k), "removed": int(removed), "err": float(max(errs)), "cls": cls, "d": d,
-            "rankdef": bool(d > 0 and (s0[-1] <= 1e-7 * max(s0[0], 1e-300) if d else False))}
+        rep_ = float(np.asarray(rep_))
+        disc = float(np.sqrt(np.sum(s0[kk:] ** 2))) if kk < d else 0.0
+        e = abs(rep_ - disc) / nx
+        errs.append(e)
+        if not e <= tol:
+            raise Violation("info-error", against="discarded-values", err=e, tol=tol, **info)
+        if two and not p_on:
+            e = abs(rep_ - core.fro(prod - x128)) / nx
+            errs.append(e)
+            if not e <= tol:
+                raise Violation("info-error", against="actual-distance", err=e, tol=tol, **info)
+    return {"k": int(k), "d": int(d), "removed": int(removed), "err": float(max(errs)), "promoted": promoted,
+            "rankdef": bool(s0[-1] <= 1e-7 * smax), "driver": driver, "form": eff_form, "ignored": ignored}
+
+
+def check_cell(x, method, form, *, want_info=False, extra=None, info=None, **opts):
+    """Call array_split on the 2-D array x and verify the result."""
+    L, s, R, idict = split_call(x, method, form, want_info=want_info, extra=extra, info=info, **opts)
+    return verify(x, L, s, R, idict, method, form, info=info, **opts)
+
+
+# ---------------------------------------------------------------------------
+# documented per-driver domains (docstrings of the drivers / of array_split)
+# ---------------------------------------------------------------------------
+
+ALL_FORMS = tuple(FORM_RETURNS)
+QR_FORMS = ("right", "lorthog", "rfactor", "left", "lfactor", "rorthog")
+VALID_FORMS = {
+    "qr": QR_FORMS, "qr:cholesky": QR_FORMS, "cholesky": ("both", "lsqrt", "rsqrt"), "lu": ("both",),
+    "polar_right": ("right",), "polar_left": ("left",),
+}
+SQRT_FORMS = ("both", "lsqrt", "rsqrt")
+
+
+def form_supported(driver, eff_form):
+    v = VALID_FORMS.get(driver)
+    return True if v is None else eff_form in v
+
+
+def family(driver):
+    return driver.split("_")[0].split(":")[-1] if driver.startswith(("polar", "qr:")) else driver
+
+
+def in_domain(driver, eff_form, m, n):
+    """Input-shape preconditions stated in the documentation / warnings of the drivers."""
+    if driver in HERMITIAN_ONLY or driver == "cholesky":
+        return m == n
+    if driver == "qr:cholesky":
+        # 'not well-defined for tall matrices' after the internal transposition: QR-like needs m >= n, LQ-like m <= n
+        if eff_form in ("right", "lorthog", "rfactor"):
+            return m >= n
+        if eff_form in ("left", "lfactor", "rorthog"):
+            return m <= n
+    return True
+
+
+def guarded_cell(x, method, form, info, **opts):
+    """check_cell + the 'unsupported form must be refused' rule.  Returns the outcome dict; raises CellReject."""
+    driver, eff, caps, ignored = plan(method, form, opts.get("max_bond"), opts.get("cutoff", 0.0))
+    if not form_supported(driver, eff):
+        # documented: only some forms are valid for some methods -> the call must refuse
+        split_call(x, method, form, info=info, **{k: v for k, v in opts.items() if k != "want_info"})
+        raise Violation("unsupported-form-accepted", family=family(driver), **info)
+    return check_cell(x, method, form, info=info, **opts)
+
+
+# ---------------------------------------------------------------------------
+# 1. the exhaustive method x form x cutoff-mode x dtype x truncation x renorm table
+# ---------------------------------------------------------------------------
+
+TRUNCS = ("none", "max_bond", "cutoff", "both")
+RENORMS = (0, True, 1, 2)
+TABLE_SHAPES = {"general": ((6, 4), (4, 6)), "square": ((5, 5), (4, 4))}
+
+
+def cutoff_for(s0, mode, k):
+    """A cutoff that makes the documented rule keep exactly k of the reference values s0 (1 <= k < len(s0)),
+    placed well inside the gap so the cell is unambiguous."""
+    if mode in ("abs", "rel"):
+        hi, lo = s0[k - 1], max(s0[k], 1e-3 * s0[k - 1])
+        thr = math.sqrt(hi * lo)
+        return thr if mode == "abs" else thr / s0[0]
+    p = 2 if mode in ("sum2", "rsum2") else 1
+    sp = s0 ** p
+    hi = float(np.sum(sp[k - 1:]))
+    lo = max(float(np.sum(sp[k:])), 1e-3 * hi)
+    target = math.sqrt(hi * lo)
+    return target if not mode.startswith("r") else target / float(np.sum(sp))
+
+
+def uses_choose_k(driver):
+    """Reflection: does the driver pre-select its rank with decomp._choose_k (classification label only)."""
+    try:
+        return "_choose_k(" in inspect.getsource(dmod()._SPLIT_FNS[driver])
+    except Exception:
+        return False
+
+
+def dclass(driver):
+    return "iterative" if driver in ITERATIVE else ("lossy" if driver in LOSSY else "exact")
+
+
+def table_input(driver, eff_form, shape_i, dtype, seed):
+    """(x, rank or None).  Iterative / randomised drivers get exactly low-rank inputs (exactness is only promised when
+    the requested rank covers the true rank); eigsh gets rank d//2+1 so the table stays on its dense branch (its
+    sparse branch belongs to sub-check `iterative`)."""
+    sq = driver in HERMITIAN_ONLY or driver == "cholesky"
+    m, n = TABLE_SHAPES["square" if sq else "general"][shape_i]
+    if driver == "cholesky":
+        return make_input(seed, "psd_geo", m, n, dtype), None
+    if driver == "eigsh":
+        r = m // 2 + 1
+        return make_input(seed, "psd_lowrank", m, n, dtype, rank=r), r
+    if driver in HERMITIAN_ONLY:
+        # sqrt forms of an eigen-decomposition need a non-negative spectrum (indefinite inputs: sub-check `untruncated`)
+        return make_input(seed, "psd_geo" if eff_form in SQRT_FORMS else "herm_geo", m, n, dtype), None
+    if driver in ITERATIVE:
+        return make_input(seed, "lowrank", m, n, dtype, rank=2), 2
+    return make_input(seed, "geometric", m, n, dtype), None
+
+
+def enum_table(tier):
+    reg = registry()
+    for method in reg["methods"]:
+        for form in reg["forms"]:
+            for dtype in A.DTYPES:
+                for sh in (0, 1):
+                    for trunc in TRUNCS:
+                        yield {"method": method, "form": form, "dtype": dtype, "shape": sh, "trunc": trunc,
+                               "seed": 11 + sh if tier == "quick" else 101 + sh}
+
+
+def run_table(case):
+    reg = registry()
+    method, form, dtype, sh, trunc = case["method"], case["form"], case["dtype"], case["shape"], case["trunc"]
+    cells = nt = 0
+    cls = collections_counter()
+    maxerr = 0.0
+    single = is_single(dtype)
+    base = dict(method=method, form=str(form), single=single, trunc=trunc)
+    for mode in reg["modes"]:
+        for renorm in RENORMS:
+            fresh_parser()
+            cells += 1
+            driver, eff, caps, ignored = plan(method, form, 2 if trunc in ("max_bond", "both") else None,
+                                              1.0 if trunc in ("cutoff", "both") else 0.0)
+            x, rank = table_input(driver, eff, sh, dtype, case["seed"])
+            m, n = x.shape
+            info = dict(base, shp=shape_class(m, n), mode=mode, renorm=repr(renorm), dclass=dclass(driver))
+            if not in_domain(driver, eff, m, n):
+                cls["outside-documented-domain"] += 1
+                continue
+            s0 = np.linalg.svd(x.astype(np.complex128), compute_uv=False)
+            d = len(s0)
+            mb, co = None, 0.0
+            if rank is not None:
+                # low-rank input: every cap / cutoff keeps the whole rank (a cutoff far below the values, far above the noise)
+                tiny = 1e-3 if single else 1e-8
+                if trunc == "max_bond":
+                    mb = rank
+                elif trunc == "cutoff":
+                    co = tiny
+                elif trunc == "both":
+                    mb, co = (rank + 1 if sh == 0 else rank), tiny
+            else:
+                kt = 2
+                if trunc == "max_bond":
+                    mb = kt
+                elif trunc == "cutoff":
+                    co = cutoff_for(s0, mode, kt)
+                elif trunc == "both":
+                    if sh == 0:
+                        mb, co = kt + 1, cutoff_for(s0, mode, kt)      # the cutoff binds
+                    else:
+                        mb, co = kt, cutoff_for(s0, mode, kt + 1)      # the cap binds
+            want_info = caps["info"] and (renorm in (0, 1))
+            try:
+                try:
+                    out = guarded_cell(x, method, form, info, max_bond=mb, cutoff=co, mode=mode, renorm=renorm, want_info=want_info)
+                except Violation as v:
+                    if driver in ITERATIVE and trunc == "none" and v.reason != "unsupported-form-accepted":
+                        # one class: an iterative driver asked for no truncation at all
+                        raise Violation("iterative-untruncated", sub=v.reason, via_choose_k=uses_choose_k(driver),
+                                        **{k_: v_ for k_, v_ in v.info.items() if k_ in info or k_ in ("exc", "k", "got")}) from v
+                    raise
+            except CellReject as r:
+                cls["rejected:" + r.why] += 1
+                continue
+            maxerr = max(maxerr, out["err"])
+            if out["removed"] or single or out["rankdef"]:
+                nt += 1
+            cls["driver=" + out["driver"]] += 1
+            if out["removed"]:
+                cls["removed>=1"] += 1
+            if out["promoted"]:
+                cls["dtype-promoted"] += 1
+    return {"n": cells, "nt": nt > 0, "nt_n": nt, "err": maxerr, "cls": [f"{k_}" for k_ in cls] + [f"trunc={trunc}"],
+            "cell_counts": dict(cls)}
+
+
+def collections_counter():
+    import collections
+
+    return collections.Counter()
+# ---------------------------------------------------------------------------
+# shared pieces of the generated (Hypothesis) sub-checks
+# ---------------------------------------------------------------------------
+
+GENERAL_KINDS = ("gauss", "gauss", "rank_k", "degenerate", "spread", "zeros", "identity", "wellcond", "geometric")
+WELL_KINDS = ("wellcond", "geometric", "degenerate")
+HERM_KINDS = ("herm_indef", "herm_geo", "psd_wc", "psd_geo", "hermitian", "psd", "zeros", "identity")
+PSD_KINDS = ("psd_wc", "psd_geo", "psd", "identity")
+
+
+def methods_of(classes, extra_skip=()):
+    """Requestable method names (drivers + parser aliases) whose resolved driver is in one of the classes."""
+    reg = registry()
+    out = []
+    for mth in reg["methods"]:
+        drv, _ = resolve_method(mth, "right", False)
+        if mth == "auto" or (dclass(drv) in classes and mth not in extra_skip):
+            out.append(mth)
+    return out
+
+
+def forms_for(driver):
+    v = VALID_FORMS.get(driver)
+    return ["auto"] + list(v if v is not None else ALL_FORMS)
+
+
+@st.composite
+def s_shape(draw, square=False, orient=None, lo=1, hi=8):
+    if square:
+        m = draw(st.integers(lo, hi))
+        return m, m
+    m, n = draw(st.integers(lo, hi)), draw(st.integers(lo, hi))
+    if orient == "tall" and m < n:
+        m, n = n, m
+    if orient == "wide" and m > n:
+        m, n = n, m
+    return m, n
+
+
+def indefinite(x):
+    w = np.linalg.eigvalsh(x.astype(np.complex128))
+    return bool(w.min() < -1e-6 * max(abs(w).max(), 1e-300))
+
+
+def std_info(case, x, driver, eff):
+    return dict(method=case["method"], form=str(case["form"]), single=is_single(case["dtype"]), shp=shape_class(*x.shape),
+                dclass=dclass(driver))
+
+
+def std_classes(case, out, x):
+    c = ["method=" + case["method"], "form=" + str(case["form"]), "dtype=" + case["dtype"], "kind=" + case["kind"],
+         "shape=" + shape_class(*x.shape)]
+    if out["removed"]:
+        c.append("removed>=1")
+    if out["rankdef"]:
+        c.append("rank-deficient")
+    if out["promoted"]:
+        c.append("dtype-promoted")
+    return c
+
+
+def is_nt(case, out, x):
+    return bool(out["removed"] or out["rankdef"] or 1 in x.shape or is_single(case["dtype"]))
+
+
+# ---------------------------------------------------------------------------
+# 2. untruncated: every non-iterative method x every form it documents, all input classes
+# ---------------------------------------------------------------------------
+
+@st.composite
+def s_untruncated(draw, tier):
+    method = draw(st.sampled_from(methods_of(("exact", "lossy"))))
+    # resolve with a supported form first to learn the driver, then draw the form among the ones it documents
+    drv0, _ = resolve_method(method, "right", False)
+    form = draw(st.sampled_from(forms_for(drv0 if method != "auto" else "svd")))
+    driver, eff, caps, _ = plan(method, form, None, 0.0)
+    if not form_supported(driver, eff):
+        form = "auto"
+        driver, eff, caps, _ = plan(method, form, None, 0.0)
+    dtype = draw(st.sampled_from(A.DTYPES))
+    if driver == "svd:eig":
+        dtype = draw(st.sampled_from(A.DTYPES64))  # single precision: finding C05-a, owned by `table`
+    if driver == "cholesky":
+        m, n = draw(s_shape(square=True))
+        kind = draw(st.sampled_from(PSD_KINDS))
+    elif driver in HERMITIAN_ONLY:
+        m, n = draw(s_shape(square=True))
+        kind = draw(st.sampled_from(HERM_KINDS))
+    elif driver == "qr:cholesky":
+        m, n = draw(s_shape(orient="tall" if eff in ("right", "lorthog", "rfactor") else "wide"))
+        kind = draw(st.sampled_from(WELL_KINDS))
+    elif driver.startswith("polar"):
+        m, n = draw(s_shape(square=True))  # non-square polar: finding C05-d, owned by `table`
+        kind = draw(st.sampled_from(GENERAL_KINDS))
+    elif driver in LOSSY:
+        m, n = draw(s_shape())
+        kind = draw(st.sampled_from(WELL_KINDS + ("rank_k", "zeros")))
+    else:
+        m, n = draw(s_shape())
+        kind = draw(st.sampled_from(GENERAL_KINDS))
+    return {"method": method, "form": form, "dtype": dtype, "m": m, "n": n, "kind": kind, "seed": draw(A.seeds),
+            "rank": draw(st.integers(1, 3)), "cutoff_none": draw(st.booleans())}
+
+
+def run_untruncated(case):
+    method, form = case["method"], case["form"]
+    driver, eff, caps, _ = plan(method, form, None, 0.0)
+    x = make_input(case["seed"], case["kind"], case["m"], case["n"], case["dtype"], rank=case["rank"])
+    if not in_domain(driver, eff, *x.shape):
+        raise Reject("outside documented domain")
+    info = std_info(case, x, driver, eff)
+    s0 = np.linalg.svd(x.astype(np.complex128), compute_uv=False)
+    info["rankdef"] = bool(s0[-1] <= 1e-7 * max(s0[0], 1e-300))
+    info["zero_input"] = bool(s0[0] == 0.0)
+    if driver in HERMITIAN_ONLY:
+        info["indefinite"] = indefinite(x)
+        info["sqrt_form"] = eff in SQRT_FORMS
+    opts = dict(max_bond=None, cutoff=None if case["cutoff_none"] else 0.0)
+    if driver == "lu":
+        opts["mode"] = "rel"  # lu documents abs / rel only
+    try:
+        out = guarded_cell(x, method, form, info, **opts)
+    except CellReject as r:
+        raise Reject("refused:" + r.why)
+    return {"nt": is_nt(case, out, x), "cls": std_classes(case, out, x), "err": out["err"]}
+
+
+# ---------------------------------------------------------------------------
+# 3. truncated: full-spectrum methods, documented rule / optimality / honesty / renormalisation
+# ---------------------------------------------------------------------------
+
+@st.composite
+def s_truncated(draw, tier):
+    reg = registry()
+    method = draw(st.sampled_from(["svd", "svd", "svd:eig", "eigh", "auto"]))
+    form = draw(st.sampled_from(["auto"] + list(ALL_FORMS)))
+    driver, eff, caps, _ = plan(method, form, 1, 1.0)
+    dtype = draw(st.sampled_from(A.DTYPES))
+    if driver == "svd:eig":
+        dtype = draw(st.sampled_from(A.DTYPES64))
+        m, n = draw(s_shape(lo=2))
+        kind = draw(st.sampled_from(WELL_KINDS))  # rank-deficient + svd:eig: finding C05-g, owned by `untruncated`
+    elif driver == "eigh":
+        m, n = draw(s_shape(square=True, lo=2))
+        kind = draw(st.sampled_from(("psd_geo", "psd_wc", "psd") if eff in SQRT_FORMS else ("herm_geo", "herm_indef", "psd_geo", "hermitian")))
+    else:
+        m, n = draw(s_shape())
+        kind = draw(st.sampled_from(GENERAL_KINDS))
+    style = draw(st.sampled_from(["gap", "gap", "raw", "cap-only"]))
+    return {"method": method, "form": form, "dtype": dtype, "m": m, "n": n, "kind": kind, "seed": draw(A.seeds),
+            "rank": draw(st.integers(1, 4)), "mode": draw(st.sampled_from(reg["modes"])), "style": style,
+            "kt": draw(st.integers(1, 7)), "jitter": draw(st.sampled_from([1.0, 1.0, 0.7, 1.3])),
+            "raw": draw(st.floats(-12.0, 0.3)), "max_bond": draw(st.sampled_from([None, None, 1, 2, 3, 4, 6, 9])),
+            "renorm": draw(st.sampled_from([None, 0, False, True, 1, 2])), "want_info": draw(st.booleans())}
+
+
+def run_truncated(case):
+    method, form, mode = case["method"], case["form"], case["mode"]
+    x = make_input(case["seed"], case["kind"], case["m"], case["n"], case["dtype"], rank=case["rank"])
+    s0 = np.linalg.svd(x.astype(np.complex128), compute_uv=False)
+    d = len(s0)
+    mb = case["max_bond"]
+    if case["style"] == "cap-only":
+        co = 0.0
+        mb = mb or max(1, d - 1)
+    elif case["style"] == "raw" or d < 2 or s0[0] == 0.0:
+        co = 10.0 ** case["raw"]
+    else:
+        kt = 1 + (case["kt"] - 1) % (d - 1)
+        co = cutoff_for(s0, mode, kt) * case["jitter"]
+        if not np.isfinite(co) or co <= 0:
+            co = 10.0 ** case["raw"]
+    driver, eff, caps, _ = plan(method, form, mb, co)
+    info = std_info(case, x, driver, eff)
+    info.update(mode=mode, renorm=repr(case["renorm"]))
+    try:
+        out = guarded_cell(x, method, form, info, max_bond=mb, cutoff=co, mode=mode, renorm=case["renorm"],
+                           want_info=case["want_info"] and caps["info"])
+    except CellReject as r:
+        raise Reject("refused:" + r.why)
+    cls = std_classes(case, out, x) + ["mode=" + mode, "renorm=" + repr(case["renorm"]), "style=" + case["style"]]
+    if mb and out["k"] == mb:
+        cls.append("cap-binds")
+    return {"nt": is_nt(case, out, x), "cls": cls, "err": out["err"]}
+
+
+# ---------------------------------------------------------------------------
+# 4. iterative / randomised drivers on exactly low-rank inputs
+# ---------------------------------------------------------------------------
+
+@st.composite
+def s_iterative(draw, tier):
+    reg = registry()
+    method = draw(st.sampled_from([mth for mth in reg["drivers"] if mth in ITERATIVE]))
+    form = draw(st.sampled_from(["auto"] + list(ALL_FORMS)))
+    herm_ = method in HERMITIAN_ONLY
+    m, n = draw(s_shape(square=herm_, lo=2, hi=12))
+    r = draw(st.integers(1, min(3, m, n)))
+    req = draw(st.sampled_from(["cap", "cap", "cap+cutoff", "cutoff"]))
+    if not registry()["caps"][method]["cutoff"]:
+        req = "cap"
+    return {"method": method, "form": form, "dtype": draw(st.sampled_from(A.DTYPES)), "m": m, "n": n, "rank": r,
+            "kind": "psd_lowrank" if herm_ else "lowrank", "seed": draw(A.seeds), "req": req,
+            "slack": draw(st.integers(0, 2)), "mode": draw(st.sampled_from(reg["modes"]))}
+
+
+def run_iterative(case):
+    method, form = case["method"], case["form"]
+    x = make_input(case["seed"], case["kind"], case["m"], case["n"], case["dtype"], rank=case["rank"])
+    d = min(x.shape)
+    single = is_single(case["dtype"])
+    mb = min(d, case["rank"] + case["slack"]) if "cap" in case["req"] else None
+    co = (1e-3 if single else 1e-8) if "cutoff" in case["req"] else 0.0
+    driver, eff, caps, _ = plan(method, form, mb, co)
+    info = std_info(case, x, driver, eff)
+    k_req = mb if mb is not None else case["rank"]
+    info["sparse_branch"] = bool(uses_choose_k(driver) and k_req <= d // 2)
+    extra = {"seed": case["seed"] % 1000} if driver == "svd:rand" else None
+    try:
+        out = guarded_cell(x, method, form, info, max_bond=mb, cutoff=co, mode=case["mode"], extra=extra)
+    except CellReject as r:
+        raise Reject("refused:" + r.why)
+    cls = std_classes(case, out, x) + ["req=" + case["req"]] + (["sparse-branch"] if info["sparse_branch"] else ["dense-branch"])
+    return {"nt": True, "cls": cls, "err": out["err"]}
